@@ -161,6 +161,9 @@ type Method struct {
 	Request    []*Field `json:"request"`
 	Response   []*Field `json:"response"`
 	NoResponse bool     `json:"no_response,omitempty"`
+	// method options block
+	Label  string `json:"label,omitempty"`
+	Hidden bool   `json:"hidden,omitempty"`
 }
 
 type Service struct {
@@ -178,10 +181,15 @@ type TopicMessage struct {
 
 type Topic struct {
 	Name     string          `json:"name"`
-	Kind     string          `json:"kind"` // publish | reqres | upsert
+	Kind     string          `json:"kind"` // publish | reqres | upsert | event
 	Messages []*TopicMessage `json:"messages,omitempty"`
 	Request  *TopicMessage   `json:"request,omitempty"`
 	Reply    *TopicMessage   `json:"reply,omitempty"`
+	// reqres: further (named) request / reply messages
+	MoreRequests []*TopicMessage `json:"more_requests,omitempty"`
+	MoreReplies  []*TopicMessage `json:"more_replies,omitempty"`
+	// event: the entity the events belong to ("pkg/name")
+	EntityName string `json:"entity_name,omitempty"`
 }
 
 type Event struct {
